@@ -5511,7 +5511,14 @@ MORE_IN_SET:
         }
         id = (int32) * p++;
 oid_parsing_done:
-        /* Done with OID parsing */
+        /* Done with OID parsing.  The value (tag and length octets at
+           least) must still lie inside the Name, whichever OID branch
+           led here */
+        if (dnEnd - p < 2)
+        {
+            psTraceCrypto("Malformed DN attributes 7b\n");
+            return PS_LIMIT_FAIL;
+        }
         stringType = (int32) * p++;
 
         if (getAsnLength(&p, (uint32) (dnEnd - p), &llen) < 0 ||
